@@ -1,16 +1,18 @@
 import Py4hwV.Emit.Cert
+import Py4hwV.Emit.FlatText
 /-
-  C01 (design level) — the TEXT of a design with ONE level of structural hierarchy.
+  C01 (design level) — the TEXT of a design with structural hierarchy of any depth.
 
-  `HierSrc`: a top module whose children are inlinable children (`GKind`: primitives, Bits, Nand2/Nor2/Xor2), `Reg`s and
-  instances of structural SUB-MODULES; every sub-module is itself a module whose children are inlinable children and
-  `Reg`s.  Net ids are GLOBAL (py4hw wires are shared objects: a port of a sub-module IS the wire connected to it); each
-  module has its own names for the nets it sees (`names`), and a wire may be connected to several ports.
+  A module (`Mod χ`) has ports, wire declarations and children of type `χ`.  Level 0 children (`GChild`) are inlinable children
+  (`GKind`: primitives, Bits, gates, Div/Mod) and `Reg`s; a level n+1 child (`HChild (ChildN n)`) is a level 0 child or an
+  INSTANCE of a structural sub-module whose children are level n children.  `ModN n` is a module of nesting depth ≤ n.
+  Net ids are GLOBAL (py4hw wires are shared objects: a port of a sub-module IS the wire connected to it); each module has
+  its own names for the nets it sees (`names`), and a wire may be connected to several ports.
   `HierSrc.emit : V.Design` mirrors rtl_generation.py (`_getVerilogForHierarchy`: the top module, then for every
   non-inlinable child its module followed by the modules of its own children, every module name once).
   `HierSrc.cert : CertSrc` is the certificate of the flattened text, listed exactly in the order `V.flattenM` produces it;
-  `Proofs/C01HierElab.lean` proves `V.flatten S.emit S.top.mname = S.cert.flat`.  A flat design is the case without
-  sub-module instances.
+  `Proofs/C01HierElab.lean` proves `V.flatten S.emit S.top.mname = S.cert.flat` by induction on the depth: every level is
+  the same construction (`Low.up`) over the operations of the level below (`Low`).
 -/
 namespace FlatM
 open V
@@ -35,28 +37,30 @@ def Mod.nm {χ : Type} (M : Mod χ) (k : Nat) : String := (M.names.lookup k).get
 abbrev Scope := Mod GChild
 
 def GChild.isReg : GChild → Bool | .reg _ => true | .kind _ => false
-def Mod.hasReg (sc : Mod GChild) : Bool := sc.children.any GChild.isReg
 
-inductive HChild where
+/-- a child one level up: an inlinable child / register, or an instance of a structural module of children `χ` -/
+inductive HChild (χ : Type) where
   | g (c : GChild)
-  | sub (iname : String) (body : Scope)
+  | sub (iname : String) (body : Mod χ)
 deriving Inhabited, Repr
 
-def HChild.hasReg : HChild → Bool | .g c => GChild.isReg c | .sub _ b => Mod.hasReg b
+def ChildN : Nat → Type
+  | 0 => GChild
+  | n + 1 => HChild (ChildN n)
+
+abbrev ModN (n : Nat) := Mod (ChildN n)
 
 structure HierSrc where
+  depth : Nat
   clk : String
   widths : List Nat
-  top : Mod HChild
+  top : ModN depth
   order : List Nat                  -- the simulator's schedule (indices into the leaves of `kinds`)
   vorder : List Nat                 -- a sources-first order of the flattened assigns
-deriving Inhabited, Repr
 
 namespace HierSrc
 
 def wd (S : HierSrc) (k : Nat) : Nat := S.widths.getD k 1
-
-def topHasReg (S : HierSrc) : Bool := S.top.children.any HChild.hasReg
 
 /-! ### the emitted modules -/
 
@@ -86,32 +90,21 @@ def modPorts {χ : Type} (wd : Nat → Nat) (M : Mod χ) (hasClk : Bool) (clk : 
   (if hasClk then [mkPort .inp 1 clk] else []) ++
   (M.inputs.map fun pk => mkPort .inp (wd pk.2) pk.1) ++ (M.outputs.map fun pk => mkPort .out (wd pk.2) pk.1)
 
-def scopeModule (wd : Nat → Nat) (clk : String) (sc : Scope) : Module :=
-  { name := sc.mname, params := [], ports := modPorts wd sc sc.hasReg clk,
-    items := (sc.locals.map fun k => Item.wire (sc.nm k) (wd k)) ++ sc.children.flatMap (gchildItems wd sc.nm clk) }
-
-def subConns (nm : Nat → String) (clk : String) (body : Scope) : List (String × Expr) :=
-  (if body.hasReg then [(clk, Expr.id clk)] else []) ++
+/-- the port connections of an instance of `body` inside a module that names its nets `nm` -/
+def subConns {χ : Type} (nm : Nat → String) (clk : String) (hasClk : Bool) (body : Mod χ) : List (String × Expr) :=
+  (if hasClk then [(clk, Expr.id clk)] else []) ++
   (body.inputs.map fun pk => (pk.1, Expr.id (nm pk.2))) ++ (body.outputs.map fun pk => (pk.1, Expr.id (nm pk.2)))
-
-def hchildItems (S : HierSrc) : HChild → List Item
-  | .g c => gchildItems S.wd S.top.nm S.clk c
-  | .sub iname body => [.inst body.mname iname [] (subConns S.top.nm S.clk body)]
-
-def topModule (S : HierSrc) : Module :=
-  { name := S.top.mname, params := [], ports := modPorts S.wd S.top S.topHasReg S.clk,
-    items := (S.top.locals.map fun k => Item.wire (S.top.nm k) (S.wd k)) ++ S.top.children.flatMap S.hchildItems }
 
 def gchildMods (wd : Nat → Nat) : GChild → List Module
   | .kind _ => []
   | .reg r => [regModuleH wd r]
 
-def hchildMods (S : HierSrc) : HChild → List Module
-  | .g c => gchildMods S.wd c
-  | .sub _ body => scopeModule S.wd S.clk body :: body.children.flatMap (gchildMods S.wd)
+/-- the ports of a sub-module have different names -/
+def PortsOK {χ : Type} (clk : String) (hasClk : Bool) (sc : Mod χ) : Prop :=
+  ((if hasClk then [clk] else []) ++ (sc.inputs.map (·.1) ++ sc.outputs.map (·.1))).Nodup
 
-/-- the module list, every module name once, in order of first use -/
-def emit (S : HierSrc) : Design := FlatSrc.dedupMods (S.topModule :: S.top.children.flatMap S.hchildMods)
+instance {χ : Type} (clk : String) (hasClk : Bool) (sc : Mod χ) : Decidable (PortsOK clk hasClk sc) := by
+  unfold PortsOK; infer_instance
 
 /-! ### the certificate of the flattened text, in `V.flattenM` order -/
 
@@ -150,7 +143,7 @@ def regPiece (wd : Nat → Nat) (nmp : Nat → String) (p pclk : String) (r : Re
 def kindPiece (wd : Nat → Nat) (nmp : Nat → String) (nu : List (Nat × String)) (i : Nat) (k : GKind) : Piece :=
   { assigns := k.assigns wd nmp, tags := (List.range (k.assigns wd nmp).length).map fun j => Tag.kind i j nu }
 
-/-- pieces of the children; `i` numbers the inlinable children -/
+/-- pieces of level 0 children; `i` numbers the inlinable children -/
 def gchildPieces (wd : Nat → Nat) (nmp : Nat → String) (nu : List (Nat × String)) (p pclk : String) : Nat → List GChild → List Piece
   | _, [] => []
   | i, .kind k :: rest => kindPiece wd nmp nu i k :: gchildPieces wd nmp nu p pclk (i + 1) rest
@@ -168,46 +161,111 @@ def modDeclPiece {χ : Type} (wd : Nat → Nat) (M : Mod χ) (p : String) (hasCl
 
 def nuOf {χ : Type} (M : Mod χ) (p : String) : List (Nat × String) := M.names.map fun kn => (kn.1, p ++ kn.2)
 
-/-- a flattened sub-module instance: its declarations and children under `cp`, then the port connections -/
-def subPiece (S : HierSrc) (i : Nat) (iname : String) (body : Scope) : Piece :=
-  let cp := "" ++ iname ++ "."
-  let nmp := fun x => cp ++ body.nm x
-  ((modDeclPiece S.wd body cp body.hasReg S.clk).app
-    (Piece.join (gchildPieces S.wd nmp (nuOf body cp) cp (cp ++ S.clk) i body.children))).app
-  { assigns := (if body.hasReg then [(.lid (cp ++ S.clk), .id ("" ++ S.clk))] else []) ++
-      (body.inputs.map fun pk => (.lid (cp ++ pk.1), .id ("" ++ S.top.nm pk.2))) ++
-      (body.outputs.map fun pk => (.lid ("" ++ S.top.nm pk.2), .id (cp ++ pk.1))),
-    tags := (if body.hasReg then [.clock] else []) ++ (body.inputs.map fun _ => Tag.alias) ++ (body.outputs.map fun _ => Tag.alias),
-    clocks := [] }
+/-! ### one level of hierarchy over the operations of the level below -/
 
-def hchildPieces (S : HierSrc) : Nat → List HChild → List Piece
+/-- what a level provides for its children type `χ` -/
+structure Low (χ : Type) where
+  hasReg : χ → Bool                                   -- the child contains a register (its module needs the clock port)
+  items : (Nat → String) → χ → List Item             -- the items the child contributes to its parent's body
+  mods : χ → List Module                              -- the modules the child brings along, in emission order
+  pieces : (Nat → String) → List (Nat × String) → String → String → Nat → List χ → List Piece
+  kinds : List χ → List GKind                         -- the inlinable children below, in the numbering of `pieces`
+  clocks : String → List χ → List (String × String)  -- clock ports of sub-module instances with the clock they are connected to
+  portsOK : List χ → Bool
+
+def low0 (wd : Nat → Nat) (clk : String) : Low GChild :=
+  { hasReg := GChild.isReg, items := fun nm c => gchildItems wd nm clk c, mods := gchildMods wd, pieces := gchildPieces wd,
+    kinds := kindsOf, clocks := fun _ _ => [], portsOK := fun _ => true }
+
+variable {χ : Type}
+
+def Low.modHasReg (L : Low χ) (b : Mod χ) : Bool := b.children.any L.hasReg
+
+/-- the module of a structural block -/
+def Low.modOf (wd : Nat → Nat) (clk : String) (L : Low χ) (b : Mod χ) : Module :=
+  { name := b.mname, params := [], ports := modPorts wd b (L.modHasReg b) clk,
+    items := (b.locals.map fun k => Item.wire (b.nm k) (wd k)) ++ b.children.flatMap (L.items b.nm) }
+
+/-- a module flattened under prefix `p`: declarations, then its children -/
+def Low.modPiece (wd : Nat → Nat) (clk : String) (L : Low χ) (b : Mod χ) (p : String) (i : Nat) : Piece :=
+  (modDeclPiece wd b p (L.modHasReg b) clk).app
+    (Piece.join (L.pieces (fun x => p ++ b.nm x) (nuOf b p) p (p ++ clk) i b.children))
+
+/-- a flattened sub-module instance `cp = p ++ iname ++ "."`: its module under `cp`, then the port connections -/
+def Low.subPiece (wd : Nat → Nat) (clk : String) (L : Low χ) (nmp : Nat → String) (p pclk : String) (i : Nat) (iname : String)
+    (body : Mod χ) : Piece :=
+  let cp := p ++ iname ++ "."
+  (L.modPiece wd clk body cp i).app
+  { assigns := (if L.modHasReg body then [(.lid (cp ++ clk), .id pclk)] else []) ++
+      (body.inputs.map fun pk => (.lid (cp ++ pk.1), .id (nmp pk.2))) ++
+      (body.outputs.map fun pk => (.lid (nmp pk.2), .id (cp ++ pk.1))),
+    tags := (if L.modHasReg body then [.clock] else []) ++ (body.inputs.map fun _ => Tag.alias) ++ (body.outputs.map fun _ => Tag.alias) }
+
+def Low.childPieces (wd : Nat → Nat) (clk : String) (L : Low χ) (nmp : Nat → String) (nu : List (Nat × String)) (p pclk : String) :
+    Nat → List (HChild χ) → List Piece
   | _, [] => []
-  | i, .g (.kind k) :: rest => kindPiece S.wd (fun x => "" ++ S.top.nm x) (nuOf S.top "") i k :: hchildPieces S (i + 1) rest
-  | i, .g (.reg r) :: rest => regPiece S.wd (fun x => "" ++ S.top.nm x) "" ("" ++ S.clk) r :: hchildPieces S i rest
-  | i, .sub iname body :: rest => subPiece S i iname body :: hchildPieces S (i + (kindsOf body.children).length) rest
+  | i, .g (.kind k) :: rest => kindPiece wd nmp nu i k :: Low.childPieces wd clk L nmp nu p pclk (i + 1) rest
+  | i, .g (.reg r) :: rest => regPiece wd nmp p pclk r :: Low.childPieces wd clk L nmp nu p pclk i rest
+  | i, .sub iname body :: rest =>
+      L.subPiece wd clk nmp p pclk i iname body :: Low.childPieces wd clk L nmp nu p pclk (i + (L.kinds body.children).length) rest
 
-/-- all inlinable children, in the numbering of `hchildPieces` -/
-def hkinds : List HChild → List GKind
+def Low.childKinds (L : Low χ) : List (HChild χ) → List GKind
   | [] => []
-  | .g (.kind k) :: rest => k :: hkinds rest
-  | .g (.reg _) :: rest => hkinds rest
-  | .sub _ body :: rest => kindsOf body.children ++ hkinds rest
+  | .g (.kind k) :: rest => k :: Low.childKinds L rest
+  | .g (.reg _) :: rest => Low.childKinds L rest
+  | .sub _ body :: rest => L.kinds body.children ++ Low.childKinds L rest
 
-def piece (S : HierSrc) : Piece :=
-  (modDeclPiece S.wd S.top "" S.topHasReg S.clk).app (Piece.join (S.hchildPieces 0 S.top.children))
+/-- the next level -/
+def Low.up (wd : Nat → Nat) (clk : String) (L : Low χ) : Low (HChild χ) :=
+  { hasReg := fun c => match c with | .g c => GChild.isReg c | .sub _ b => L.modHasReg b,
+    items := fun nm c => match c with
+      | .g c => gchildItems wd nm clk c
+      | .sub iname b => [.inst b.mname iname [] (subConns nm clk (L.modHasReg b) b)],
+    mods := fun c => match c with
+      | .g c => gchildMods wd c
+      | .sub _ b => L.modOf wd clk b :: b.children.flatMap L.mods,
+    pieces := L.childPieces wd clk,
+    kinds := L.childKinds,
+    clocks := fun p cs => cs.flatMap fun c => match c with
+      | .g _ => []
+      | .sub iname b => (if L.modHasReg b then [(p ++ iname ++ "." ++ clk, p ++ clk)] else []) ++ L.clocks (p ++ iname ++ ".") b.children,
+    portsOK := fun cs => cs.all fun c => match c with
+      | .g _ => true
+      | .sub _ b => decide (PortsOK clk (L.modHasReg b) b) && L.portsOK b.children }
 
-/-- clock connections of sub-modules must precede the registers inside them: list them first -/
-def subClocks (S : HierSrc) : List (String × String) :=
-  S.top.children.flatMap fun c => match c with
-    | .sub iname body => if body.hasReg then [("" ++ iname ++ "." ++ S.clk, "" ++ S.clk)] else []
-    | .g _ => []
+def lowN (wd : Nat → Nat) (clk : String) : (n : Nat) → Low (ChildN n)
+  | 0 => low0 wd clk
+  | n + 1 => (lowN wd clk n).up wd clk
+
+/-! ### the emitted module list and the certificate -/
+
+def low (S : HierSrc) : Low (ChildN S.depth) := lowN S.wd S.clk S.depth
+
+def topModule (S : HierSrc) : Module := S.low.modOf S.wd S.clk S.top
+
+def mods (S : HierSrc) : List Module := S.topModule :: S.top.children.flatMap S.low.mods
+
+/-- the module list, every module name once, in order of first use -/
+def emit (S : HierSrc) : Design := FlatSrc.dedupMods S.mods
+
+/-- every module name stands for ONE module, the ports of every sub-module have different names, and the module list is
+    at least as long as the nesting is deep (the fuel of `V.flatten`); all decidable -/
+def modsOKb (S : HierSrc) : Bool :=
+  (S.mods.all fun m => S.mods.all fun m' => decide (m.name = m'.name → m = m')) &&
+  S.low.portsOK S.top.children && decide (S.depth ≤ S.emit.length)
+
+def piece (S : HierSrc) : Piece := S.low.modPiece S.wd S.clk S.top "" 0
 
 def cert (S : HierSrc) : CertSrc :=
   let P := S.piece
-  { widths := S.widths, table := P.table, kinds := hkinds S.top.children, regs := P.regs, order := S.order,
+  { widths := S.widths, table := P.table, kinds := S.low.kinds S.top.children, regs := P.regs, order := S.order,
     sigs := P.sigs, assigns := P.assigns, tags := P.tags, vorder := S.vorder, clk := S.clk,
-    clocks := S.subClocks ++ P.clocks,
+    -- clock connections of sub-modules must precede the registers inside them: list them first, parents first
+    clocks := S.low.clocks "" S.top.children ++ P.clocks,
     inputs := S.top.inputs.map fun pk => (pk.2, "" ++ pk.1) }
+
+/-- everything the theorems need of an imported hierarchical description (all decidable) -/
+def check (S : HierSrc) : Bool := S.modsOKb && S.cert.check
 
 end HierSrc
 end FlatM
